@@ -16,7 +16,13 @@ pub fn attach_apps(sim: &mut Sim, t: &mut Tape) -> Vec<&'static str> {
                 let others: Vec<u8> = addrs.iter().copied().filter(|a| *a != n.addr).collect();
                 let mut targets = vec![127u8, 126];
                 targets.extend(others.iter().take(2));
-                let spec = crate::apps::AppSpec { burst: 1, targets, kind: crate::apps::ReqKind::FdlStatus, pdu_len: 0 };
+                // ... or publishes two unacknowledged broadcasts per token hold (back-to-back telegrams of
+                // the same station, separated by the synchronisation pause only)
+                let spec = if t.bool() {
+                    crate::apps::AppSpec { burst: 1, targets, kind: crate::apps::ReqKind::FdlStatus, pdu_len: 0 }
+                } else {
+                    crate::apps::AppSpec { burst: 2, targets: vec![127], kind: crate::apps::ReqKind::SdnLow, pdu_len: 1 + t.below(12) as usize }
+                };
                 n.apps.push(Box::new(crate::apps::TrafficApp::new(0, 0, n.addr, spec, log.clone())));
                 kinds.push("monitor");
             }
@@ -132,7 +138,7 @@ fn ring_case(t: &mut Tape, obs: &mut Obs, cap_slots: i64) -> CaseResult {
 pub fn property() -> Property {
     Property {
         id: "C01",
-        rule: "cases: fault-free rings of 2..5 real FdlActiveStations on the SimBus (all 11 baud rates, Tslot from the builder minimum, HSA/gap factor/TTR/max_retry generated, addresses biased to HSA-1 / 0 / adjacent pairs), cold start together or late joiners, poll schedules jitter/fixed/lock-step/aligned-to-telegram-ends with periods up to min(Tslot/4, (Tslot-50bit)/3), with and without applications (live list, DP scanner, a monitor that sends FDL status requests to the broadcast address, other masters and unused addresses); the byte-accurate bus trace is judged: no overlap, >= 33 bit (initiated) / >= 11 bit (reply) idle time up to 1 us, and the right to transmit (token owner, retry of own pass, answer to a request addressed to it, claim after own silence time-out). Non-trivial = a ring of >= 2 stations formed and at least one GAP poll was answered by another station; distinct by (baud, addresses, HSA, G, Tslot, schedule class).",
+        rule: "cases: fault-free rings of 2..5 real FdlActiveStations on the SimBus (all 11 baud rates, Tslot from the builder minimum, HSA/gap factor/TTR/max_retry generated, addresses biased to HSA-1 / 0 / adjacent pairs), cold start together or late joiners, poll schedules jitter/fixed/lock-step/aligned-to-telegram-ends with periods up to min(Tslot/4, (Tslot-50bit)/3), with and without applications (live list, DP scanner, a monitor that sends FDL status requests to the broadcast address, other masters and unused addresses, a publisher of unacknowledged broadcasts); the byte-accurate bus trace is judged: no overlap, >= 33 bit (initiated) / >= 11 bit (reply) idle time up to 1 us, and the right to transmit (token owner, retry of own pass, answer to a request addressed to it, claim after own silence time-out). Non-trivial = a ring of >= 2 stations formed and at least one GAP poll was answered by another station; distinct by (baud, addresses, HSA, G, Tslot, schedule class).",
         assumptions: vec![
             "SimBus timing model (harness/src/simbus.rs): byte i of a transmission occupies [start+11i bit, start+11(i+1) bit), receivers see a byte when its last bit has passed",
             "poll periods are capped at min(Tslot/4, (Tslot-50 bit)/3): a poll-driven station needs 3 polls + 44 bit to take over the token (DESIGN 5.3); the un-synchronised cold-start claim race and stale receive buffers at set_online() are excluded as the property says",
